@@ -287,6 +287,32 @@ print(what); print(a); print(b); print("relative difference", err, "expected 0")
 sys.exit(1 if err > 1e-9 else 0)
 '''
 
+REPLAY_PURITY = r'''
+import sys, json
+sys.path.insert(0, %(verif)r)
+from corr import c11_impl
+r = c11_impl.run_purity(%(case)r)
+print(json.dumps(r, indent=1))
+bad = bool(r["modified"]) or r["repeat_err"] > 1e-12
+print("array arguments modified in place:", r["modified"] or "none", "; repeatability error:", r["repeat_err"], r.get("repeat_step", ""))
+sys.exit(1 if bad else 0)
+'''
+
+REPLAY_ANISO_FORM = r'''
+import sys, numpy as np
+from EasyFEA.Models.Elastic._laws import Anisotropic
+C = np.array(%(C)r, dtype=float)
+a, b = [np.array(x, dtype=float) for x in %(axes)r]
+lead = %(lead)r
+m0 = Anisotropic(%(dim)d, C, %(voigt)r, a, b)                                  # one matrix
+mf = Anisotropic(%(dim)d, np.broadcast_to(C, lead + C.shape).copy(), %(voigt)r, a, b)   # the same C as a field
+err = np.abs(mf.C - m0.C).max() / np.abs(m0.C).max()
+print("axes", a, b)
+print("C from the single matrix:\n", m0.C, "\nfirst entry of the law built from the field of shape", lead + C.shape, ":\n", mf.C.reshape((-1,) + m0.C.shape)[0])
+print("relative difference", err, "expected 0")
+sys.exit(1 if err > 1e-9 else 0)
+'''
+
 REPLAY_PSTATE = r'''
 import sys, numpy as np
 from EasyFEA.Models.Elastic import _laws
@@ -427,8 +453,8 @@ def relerr(impl, model):
 def build_cases(ctx, lw):
     rng = ctx.rng
     quick = ctx.tier == "quick"
-    req = {"law": [], "pmat": [], "apply": [], "aniso": [], "lazy": [], "km": [], "boundary": []}
-    meta = {"law": [], "pmat": [], "apply": [], "aniso": [], "lazy": [], "km": []}
+    req = {"law": [], "pmat": [], "apply": [], "aniso": [], "anisof": [], "lazy": [], "km": [], "boundary": [], "purity": []}
+    meta = {"law": [], "pmat": [], "apply": [], "aniso": [], "anisof": [], "lazy": [], "km": []}
     nrep = 3 if quick else 12
     # ---- laws: each 2-D case is accompanied by the 3-D law with the same parameters and axes
     for cname in T_laws.CLASSES:
@@ -513,10 +539,21 @@ def build_cases(ctx, lw):
             Cv = (G @ G.T + n * np.eye(n)).round(3)
             d = np.array([1, 1, 1] + [math.sqrt(2)] * 3) if n == 6 else np.array([1, 1, math.sqrt(2)])
             Ck = Cv * np.outer(d, d)
-            a, b = rand_axes(rng, "inplane" if dim == 2 else rng.choice(["id", "3d"]))
+            akind = ["rotated", "reflected", "default"][rep % 3]
+            if akind == "default":
+                a, b = rand_axes(rng, "id")
+            else:
+                a, b = rand_axes(rng, "inplane" if dim == 2 else "3d")
+                if akind == "reflected":
+                    b = [-x for x in b]          # left-handed pair (a mirror image of the material frame)
             for voigt, Cin in ((True, Cv), (False, Ck)):
+                base = len(req["aniso"])
                 req["aniso"].append({"dim": dim, "C": Cin.tolist(), "voigt": voigt, "axes": [a, b]})
-                meta["aniso"].append({"dim": dim, "Ck": Ck, "axes": [a, b], "voigt": voigt})
+                meta["aniso"].append({"dim": dim, "Ck": Ck, "axes": [a, b], "voigt": voigt, "akind": akind})
+                # the same material given as a per-element (Ne,n,n) and a per-Gauss-point (Ne,nPg,n,n) field
+                for form, lead in (("per-element", (3,)), ("per-Gauss-point", (2, 3))):
+                    req["anisof"].append({"dim": dim, "C": np.broadcast_to(Cin, lead + Cin.shape).tolist(), "voigt": voigt, "axes": [a, b]})
+                    meta["anisof"].append({"dim": dim, "base": base, "form": form, "lead": lead, "voigt": voigt, "akind": akind, "Cin": Cin.tolist(), "axes": [a, b]})
     # ---- lazy update: scalar and array-valued (per element / per Gauss point) parameters; assignments of a
     #      new object, of an equal-valued copy, and of THE SAME array after an in-place edit
     for rep in range(10 if quick else 40):
@@ -587,6 +624,31 @@ def build_cases(ctx, lw):
         mops += [("read", x) for x in last]
         req["lazy"].append({"cls": cname, "dim": dim, "init": states[0], "ops": ops})
         meta["lazy"].append({"cls": cname, "dim": dim, "states": states, "mops": mops, "fshape": fshape})
+    # ---- purity / repeatability: constructors, setters and readers must not modify their array arguments
+    #      (bitwise), and building / setting / reading twice from the SAME objects must give the same law;
+    #      float-typed AND int-typed inputs (the dtype decides whether numpy copies)
+    for dtype in ("float", "int"):
+        for dim in (2, 3):
+            n = 3 if dim == 2 else 6
+            for lead in ((), (2,)) if quick else ((), (2,), (2, 2)):
+                G = np.array([[rng.randint(-2, 2) for _ in range(n)] for _ in range(n)])
+                Cv = G @ G.T + 2 * n * np.eye(n, dtype=int)
+                if dtype == "float":
+                    Cv = Cv + np.round(np.diag([rng.uniform(0, 1) for _ in range(n)]), 3)
+                req["purity"].append({"what": "aniso", "dtype": dtype, "dim": dim, "voigt": True, "typed": ["C", "axis1", "axis2"],
+                                      "arrays": {"C": np.broadcast_to(Cv, lead + Cv.shape).tolist(),
+                                                 "axis1": [0, 1, 0] if dtype == "int" else [0.6, 0.8, 0.0], "axis2": [-1, 0, 0] if dtype == "int" else [-0.8, 0.6, 0.0]}})
+            M = [[rng.randint(-5, 5) + (0.0 if dtype == "int" else round(rng.random(), 2)) for _ in range(n)] for _ in range(n)]
+            req["purity"].append({"what": "utils", "dtype": dtype, "dim": dim, "typed": ["M", "axis1", "axis2"],
+                                  "arrays": {"M": M, "axis1": ([0, 2, 0] if dtype == "int" else [0.0, 1.7, 0.0])[:dim], "axis2": ([-3, 0, 0] if dtype == "int" else [-0.4, 0.0, 0.0])[:dim]}})
+        for cname, fields, scal in (("Isotropic", {"E": [10, 20, 30]}, {"v": 0.3}),
+                                    ("TransverselyIsotropic", {"El": [[100, 120], [90, 150]], "Et": [[20, 25], [30, 22]]}, {"Gl": 8.0, "vl": 0.1, "vt": 0.3}),
+                                    ("Orthotropic", {"E1": [100, 120, 90]}, {"E2": 50.0, "E3": 20.0, "G23": 8.0, "G13": 9.0, "G12": 10.0, "v23": 0.1, "v13": 0.2, "v12": 0.3})):
+            arrays = {k: (v if dtype == "int" else (np.array(v) + 0.5).tolist()) for k, v in fields.items()}
+            if cname != "Isotropic":
+                arrays.update({"axis1": [0, 0, 2] if dtype == "int" else [0.0, 0.6, 0.8], "axis2": [1, 0, 0] if dtype == "int" else [1.0, 0.0, 0.0]})
+            req["purity"].append({"what": "law", "cls": cname, "dtype": dtype, "dim": rng.choice([2, 3]), "fields": list(fields), "scalars": scal,
+                                  "typed": list(arrays), "arrays": arrays})
     # ---- boundary of the descriptor ranges: the value 0 passes PositiveParameter
     req["boundary"] = [{"cls": "Isotropic", "dim": 3, "params": {"E": 0.0, "v": 0.3}},
                        {"cls": "Isotropic", "dim": 2, "params": {"E": 0.0, "v": 0.3}},
@@ -806,6 +868,27 @@ def correspondence(ctx, lw, pm):
             e = relerr(rk["C"], rotate_kelvin(Ck, m["axes"][0], m["axes"][1]))
             if e > PTOL:
                 viol.append(("aniso-frame-rotation", "Anisotropic 3-D: C is not the rotated tensor (rel. %.2e)" % e, {"axes": m["axes"]}))
+    # ---------------- Anisotropic, input forms: the same C given per element / per Gauss point must give, in
+    #                  every entry of the field, the law obtained from the single matrix (same axes, same notation)
+    for k, (c, m, r) in enumerate(zip(req["anisof"], meta["anisof"], impl["anisof"])):
+        count("aniso-form:%dd:%s:%s:%s" % (m["dim"], m["form"], "voigt" if m["voigt"] else "kelvin", m["akind"]))
+        ctx.note_case("aniso-form:%d:%s:%s:%s" % (m["dim"], m["form"], m["voigt"], m["akind"]))
+        rb = impl["aniso"][m["base"]]
+        if "raises" in r or "raises" in rb:
+            mism.append(("aniso-form#%d" % k, "raised %s" % (r.get("raises") or rb.get("raises"))))
+            continue
+        n = 3 if m["dim"] == 2 else 6
+        Cf, Sf = np.array(r["C"]), np.array(r["S"])
+        if Cf.shape != tuple(m["lead"]) + (n, n):
+            mism.append(("aniso-form#%d" % k, "shape %s" % (Cf.shape,)))
+            continue
+        e = max(relerr(Cf, np.broadcast_to(np.array(rb["C"]), Cf.shape)), relerr(Sf, np.broadcast_to(np.array(rb["S"]), Sf.shape)))
+        if e > PTOL:
+            viol.append(("aniso-input-form:%dD:%s" % (m["dim"], m["form"]),
+                         "Anisotropic(dim=%d, %s axes, %s input): the %s field of one and the same C does not give the law of the single matrix (rel. %.2e)"
+                         % (m["dim"], m["akind"], "Voigt" if m["voigt"] else "Kelvin-Mandel", m["form"], e),
+                         {"replay_py": REPLAY_ANISO_FORM % dict(dim=m["dim"], C=m["Cin"], voigt=m["voigt"], axes=m["axes"], lead=tuple(m["lead"])),
+                          "C": m["Cin"], "axes": m["axes"], "form": m["form"]}))
     # ---------------- lazy update: the Coq model tells which parameter CONTENTS each read must reflect; the
     #                  implementation's read is compared with a freshly built law (and with the translated model)
     lines = []
@@ -888,6 +971,22 @@ def correspondence(ctx, lw, pm):
                                  {"replay_py": REPLAY_LAZY % dict(cls=m["cls"], dim=m["dim"], init=req["lazy"][k]["init"], ops=upto),
                                   "ops": upto, "init": req["lazy"][k]["init"], "cls": m["cls"], "dim": m["dim"]}))
                     break
+    # ---------------- purity / repeatability
+    for c, r in zip(req["purity"], impl.get("purity", [])):
+        tag = "%s:%s:%s" % (c["what"], c.get("cls", "%dD" % c["dim"]), c["dtype"])
+        count("purity:" + tag)
+        ctx.note_case("purity:%s:%s" % (tag, np.shape(c["arrays"].get("C", c["arrays"].get("M", [])))))
+        if "raises" in r:
+            mism.append(("purity %s" % tag, "raised %s" % r["raises"]))
+            continue
+        rp = {"replay_py": REPLAY_PURITY % dict(verif=common.VERIF, case=c), "case": c, "impl_result": r}
+        if r["modified"]:
+            mo = r["modified"][0]
+            viol.append(("input-modified:%s" % (c.get("cls") or ("Anisotropic" if c["what"] == "aniso" else "Models._utils")),
+                         "%s (%s-typed input): the caller's array `%s` was modified in place by %s (max change %.3g)" % (tag, c["dtype"], mo["arg"], mo["after"], mo["max_change"]), rp))
+        if r["repeat_err"] > 1e-12:
+            viol.append(("not-repeatable:%s" % (c.get("cls") or ("Anisotropic" if c["what"] == "aniso" else "Models._utils")),
+                         "%s (%s-typed input): %s gives a different result (rel. %.3g) than the first time" % (tag, c["dtype"], r.get("repeat_step"), r["repeat_err"]), rp))
     # ---------------- boundary: value 0 is accepted by PositiveParameter; no law may come out
     for c, r in zip(req["boundary"], impl["boundary"]):
         ctx.note_case("boundary:%s:%d" % (c["cls"], c["dim"]))
